@@ -3,9 +3,14 @@
 import json
 ALL=[json.loads(l)['id'] for l in open('/verif/properties.jsonl')]
 ENGINES={
+ "progmc":("harness/src/progmc.rs (+ kast.rs renderer, kref.rs reference interpreter, fam_*.rs families)","bounded-exhaustive enumeration of program families; each program runs on the real koto and on the reference interpreter kref; observations compared"),
  "lexmc":("harness/src/lexmc.rs","exhaustive prefix-tree exploration of all strings up to a length bound through the real lexer"),
 }
 CHECKS={
+ "C01":dict(engine="progmc",category="exploration",
+   text="Complete enumeration of small program families (all one-operator trees over a 16-leaf alphabet in 16 surrounding contexts x top-level/function body; two-operator trees over a reduced alphabet; comparison chains of 3-4 operands; i64/f64 boundary leaves; assignment statement sequences; every range form; every index/slice of small containers; if/switch/loop shapes with 0..3 iterations and break/continue values). Each program is compiled and run on the real koto and evaluated by an independent reference interpreter written from the language guide; stdout, result and error class must agree.",
+   note="Trusted: kref (the reference interpreter) and the renderer; bounded depth (small-scope hypothesis). Runtime error messages are not compared, only classes.",
+   technique="bounded-exhaustive program enumeration + differential against a reference model (every case replayed on the implementation)"),
  "C09":dict(engine="lexmc",category="model_checking",
    text="Every string up to length 5 (thorough 6) over a 22-symbol alphabet that reaches every lexer mode, and up to length 6 (thorough 8) over a 12-symbol string-mode alphabet, plus every char-boundary prefix of the corpus, is lexed by the real lexer and checked against an oracle taken directly from the statement (contiguity, char boundaries, lines = line breaks before, columns restart, indentation, termination, no panic). Exhaustive within the bound; no model in between.",
    note="Bounded: strings longer than the bound or using other symbols are only covered through the corpus prefixes. Column unit is not fixed by the property, only its resets/monotonicity.",
